@@ -188,7 +188,12 @@ pub fn exports(args: &Args, reg: &[TypeEntry], log: &mut Log) {
             };
             let third = files_only(&snapshot(&root));
             let missing: Vec<&String> = written.iter().copied().filter(|p| third.get(*p) != after.get(*p)).collect();
-            reexport = json!({"result": format!("{again:?}"), "missing_or_different": missing});
+            // what the files hold now (C04: every type exported to a file is declared in it - also after a clean)
+            let refiles: BTreeMap<String, Value> = written
+                .iter()
+                .filter_map(|p| third.get(*p).map(|b| ((*p).clone(), describe_file(&String::from_utf8_lossy(b)))))
+                .collect();
+            reexport = json!({"result": format!("{again:?}"), "missing_or_different": missing, "files": refiles});
         }
         let collected: Vec<Value> = guarded(e.collect)
             .unwrap_or_default()
